@@ -192,12 +192,50 @@ pub fn slide_setup(spec: &Spec, cname: &str, cell: &str, r: &mut Rng) -> Result<
         return Err(CaseOut::skip(cell, "the window did not move within 1.1 MB", gen::opts_desc(o)));
     }
     stat_add("window_slide_positions_found", moves_at.len() as u64);
-    // the write call during which the window moved started at `edge`; keep 60 KB behind the last edge used
-    let edge = moves_at[0];
+    // The position depends on byte counts only (options and container, not content): a second probe
+    // with one-byte writes inside the 512-byte step finds it exactly. `fill` = number of bytes after
+    // which the window is full, i.e. the first write call behind it makes the window move.
+    let coarse = moves_at[0];
+    let mut fill = coarse;
+    {
+        let d = &data;
+        let f = &mut fill;
+        let _ = catch(|| {
+            crate::ours::encode_with(spec, std::io::sink(), d.len() as u64, &mut |w: &mut dyn Write| {
+                w.write_all(&d[..coarse])?;
+                let seen = window_moves();
+                let mut off = coarse;
+                while off < coarse + 513 && off < d.len() {
+                    w.write_all(&d[off..off + 1])?;
+                    if window_moves() != seen {
+                        *f = off;
+                        break;
+                    }
+                    off += 1;
+                }
+                w.write_all(&d[off + 1..])
+            })
+        });
+    }
+    let edge = fill;
     let edge2 = moves_at.get(1).copied();
     let len = (edge2.unwrap_or(edge) + 60_000).min(data.len());
     let mut data = data;
     data.truncate(len);
+    // far copies: the bytes around the fill position (the ones still pending in the match finder when
+    // a flush arrives there) repeat what lies almost a whole dictionary in front of them, so that
+    // candidates at the largest distances the dictionary allows are looked at right after the move
+    let dict = o.dict_size as usize;
+    for e in [Some(edge), edge2].into_iter().flatten() {
+        let dist = dict - r.usize_below(8);
+        let from = e.saturating_sub(600);
+        let to = (e + 600).min(data.len());
+        if from > dist {
+            for i in from..to {
+                data[i] = data[i - dist];
+            }
+        }
+    }
     let mut plans: Vec<(String, Vec<usize>, usize)> = Vec::new();
     // (a) tiny uniform writes through the region in front of and behind the edge
     for (piece, flush) in [(1usize, 0usize), (2, 0), (3, 0), (7, 0), (1, 1), (3, 2), (64, 0), (64, 1), (200, 3)] {
@@ -207,15 +245,21 @@ pub fn slide_setup(spec: &Spec, cname: &str, cell: &str, r: &mut Rng) -> Result<
         p.extend(std::iter::repeat(piece).take(span / piece));
         plans.push((format!("lead {lead} then {piece}-byte writes over {span} bytes, flush_every={flush}"), p, flush));
     }
-    // (b) one boundary (with a flush) at chosen distances in front of the edge, then the rest
-    for i in 0..10 {
-        let back = match r.below(4) {
-            0 => r.usize_below(600),
-            1 => r.usize_below(5000),
-            2 => 512 + r.usize_below(64),
-            _ => r.usize_below(9000),
+    // (b) one boundary (with or without a flush) exactly at the fill position, one and two bytes
+    // around it, and at chosen distances in front of it, then the rest
+    for i in 0..14 {
+        let back = match i {
+            0 | 1 => 0,
+            2 => 1,
+            3 => 2,
+            _ => match r.below(4) {
+                0 => r.usize_below(600),
+                1 => r.usize_below(5000),
+                2 => r.usize_below(64),
+                _ => r.usize_below(9000),
+            },
         };
-        let at = (edge + 512).saturating_sub(back);
+        let at = if i == 4 { edge + 1 } else { edge.saturating_sub(back) };
         let flush = (i % 2 == 0) as usize;
         plans.push((format!("write({at}){} write(rest)", if flush == 1 { ", flush," } else { "," }), vec![at], flush));
     }
@@ -238,8 +282,9 @@ pub fn slide_setup(spec: &Spec, cname: &str, cell: &str, r: &mut Rng) -> Result<
 pub fn slide_opts(r: &mut Rng) -> LZMAOptions {
     let mode = if r.chance(1, 2) { EncodeMode::Fast } else { EncodeMode::Normal };
     let mf = if r.chance(1, 2) { MFType::HC4 } else { MFType::BT4 };
-    let dict = *r.pick(&[4096u32, 4096, 8192, 20000]);
-    let nice = *r.pick(&[8u32, 16, 32, 64, 273]);
+    // dictionaries of 68 KiB and more matter for LZMA2: below that its window keeps extra history
+    let dict = *r.pick(&[4096u32, 4096, 8192, 20000, 69632, 1 << 17]);
+    let nice = *r.pick(&[8u32, 16, 32, 64, 273, 273]);
     LZMAOptions::new(dict, 3, 0, 2, mode, nice, mf, 0)
 }
 
